@@ -355,7 +355,7 @@ impl Op {
                     return bad("sample type vs slot class");
                 }
                 let g = &self.geo;
-                if [g[0], g[1], g[2], g[3], g[6], g[7]].iter().any(|d| *d == 0 || *d > 2048) {
+                if [g[0], g[1], g[2], g[3], g[6], g[7]].iter().any(|d| *d == 0 || *d > 200_000) {
                     return bad("plane dimension");
                 }
                 if [g[4], g[5], g[8], g[9], self.t, self.p].iter().any(|d| *d > 2) || g[10..16].iter().any(|d| *d > 40) {
@@ -366,7 +366,7 @@ impl Op {
                 if !(CL_RGB..=CL_HSL).contains(&self.which) || slot_class(self.slot) != self.which {
                     return bad("float class vs slot class");
                 }
-                if self.geo[0] > 1 << 22 || self.geo[1] > 4096 || self.geo[2] > 4096 {
+                if self.geo[0] > 1 << 22 || self.geo[1] > 200_000 || self.geo[2] > 200_000 {
                     return bad("float image size");
                 }
             }
@@ -731,7 +731,16 @@ impl Gen<'_> {
         } else if self.r.pct(thresh_pct) {
             // thin in the other direction mostly; now and then a few dozen rows/columns
             let other = if self.r.pct(85) { self.r.range(1, 4) } else { self.r.range(5, 64) };
-            if self.r.pct(50) {
+            if self.r.below(400) == 0 {
+                // far beyond any video size: a threshold value plus 2^16 (dimensions are usize;
+                // nothing in the rule stops at 65535)
+                let big = 65536 + self.r.pick(&[0u64, 1, 480, 488, 576, 577, 1279, 1280]);
+                if self.r.pct(50) {
+                    (big, self.r.range(1, 2))
+                } else {
+                    (self.r.range(1, 2), big)
+                }
+            } else if self.r.pct(50) {
                 (self.r.pick(&[1279u64, 1280, 1281, 1276, 1284]), other)
             } else {
                 (other, self.r.pick(&[479u64, 480, 481, 484, 487, 488, 489, 492, 575, 576, 577, 572, 580]))
@@ -787,7 +796,7 @@ impl Gen<'_> {
             for _ in 0..self.r.range(1, 2) {
                 let pl = 2 + 4 * self.r.below(2) as usize;
                 match self.r.below(8) {
-                    0 => op.geo[pl] = self.r.range(1, (lw + 2).min(2048)), // chroma width independent
+                    0 => op.geo[pl] = self.r.range(1, (lw + 2).min(2048)), // chroma width independent (kept small)
                     1 => op.geo[pl + 1] = self.r.range(1, (lh + 2).min(2048)), // chroma height independent
                     2 => op.geo[pl] = (op.geo[pl] / 2).max(1),
                     3 => op.geo[pl + 1] = (op.geo[pl + 1] / 2).max(1),
